@@ -1162,13 +1162,32 @@ impl<const M: usize> Drv<M> {
 
     /// alloc_slice_try_fill_with / _iter: alloc_layout + callbacks + (on error) dealloc
     fn op_try_fill(&mut self) {
-        let n = 1 + self.rng.usize_below(40);
+        // element types of several sizes and alignments: the slice's byte size need not be a
+        // multiple of the minimum alignment
+        match self.rng.below(4) {
+            0 => self.op_try_fill_t::<u8>(),
+            1 => self.op_try_fill_t::<[u8; 3]>(),
+            _ => self.op_try_fill_t::<u64>(),
+        }
+    }
+
+    fn op_try_fill_t<T: Pat>(&mut self) {
+        let es = std::mem::size_of::<T>();
+        let mut n = 1 + self.rng.usize_below(40);
+        // every third time: a slice that only just fits what the current chunk can still serve
+        // (C11: after a failed fill the same request must fit again)
+        let cap_now = self.bump.as_ref().map(|b| b.chunk_capacity()).unwrap_or(0);
+        let exact = self.rng.chance(1, 3) && cap_now >= es && cap_now / es <= 4000;
+        if exact {
+            let k = self.rng.usize_below(M.max(1) + 1);
+            n = (cap_now.saturating_sub(k) / es).max(1);
+        }
         let fail_at = if self.rng.chance(1, 2) { Some(self.rng.usize_below(n)) } else { None };
         let use_iter = self.rng.chance(1, 3);
-        let with_inner = self.rng.chance(1, 3);
-        let lay = Layout::array::<u64>(n).unwrap();
-        let bytes = pattern(&mut self.rng, 8 * n);
-        let src: Vec<u64> = (0..n).map(|i| u64::from_bytes(&bytes[i * 8..])).collect();
+        let with_inner = !exact && self.rng.chance(1, 3);
+        let lay = Layout::array::<T>(n).unwrap();
+        let bytes = pattern(&mut self.rng, es * n);
+        let src: Vec<T> = (0..n).map(|i| T::from_bytes(&bytes[i * es..])).collect();
         let desc = format!("alloc {} {} 0 {}", lay.size(), lay.align(), if use_iter { "alloc_slice_try_fill_iter" } else { "alloc_slice_try_fill_with" });
         self.begin(&desc);
         let me: *mut Self = self;
@@ -1176,7 +1195,8 @@ impl<const M: usize> Drv<M> {
         let mut calls: Vec<usize> = Vec::new();
         let mut p_at_entry = 0usize;
         let mut entered = false;
-        let mut cb = |i: usize| -> Result<u64, u32> {
+        let mut inner_done = false;
+        let mut cb = |i: usize| -> Result<T, u32> {
             let was = track::set_active(false);
             let me = unsafe { &mut *me };
             if !entered {
@@ -1187,6 +1207,7 @@ impl<const M: usize> Drv<M> {
             }
             calls.push(i);
             if with_inner && i % 7 == 3 {
+                inner_done = true;
                 me.inner_actions();
             }
             let r = if Some(i) == fail_at {
@@ -1201,7 +1222,7 @@ impl<const M: usize> Drv<M> {
         };
         let r = guarded(|| unsafe {
             if use_iter {
-                let items: Vec<Result<u64, u32>> = track::paused(|| (0..n).map(|i| if Some(i) == fail_at { Err(77u32) } else { Ok(src[i]) }).collect());
+                let items: Vec<Result<T, u32>> = track::paused(|| (0..n).map(|i| if Some(i) == fail_at { Err(77u32) } else { Ok(src[i]) }).collect());
                 // an iterator whose next() reports to the same bookkeeping
                 let mut i = 0usize;
                 let it = std::iter::from_fn(|| {
@@ -1231,6 +1252,24 @@ impl<const M: usize> Drv<M> {
                 if !calls.iter().copied().eq(0..=fail_at.unwrap_or(0)) { self.line("K bad try_fill call order"); }
                 let d = format!("dealloc {} {} {}", p_at_entry, lay.size(), lay.align());
                 self.end(&d, &Res::Unit);
+                if !inner_done {
+                    // C11: the initialiser allocated nothing, so the same layout must now be
+                    // served without asking the global allocator
+                    let d = format!("alloc {} {} 1 probe_c11", lay.size(), lay.align());
+                    self.begin(&d);
+                    let b = self.bump.as_ref().unwrap();
+                    let r = guarded(|| b.try_alloc_layout(lay).map(|p| p.as_ptr() as usize).map_err(|_| ()));
+                    let out = match r {
+                        Ok(Ok(a)) => {
+                            let exp = pattern(&mut self.rng, lay.size());
+                            unsafe { write_bytes(a, &exp) };
+                            Ok((a, lay.size(), lay.align(), exp))
+                        }
+                        Ok(Err(())) => Err(Res::Err),
+                        Err(p) => Err(p),
+                    };
+                    self.record_alloc(&d, out);
+                }
             }
             Err(p) => {
                 // reservation failed (oom) or something else panicked
